@@ -526,13 +526,13 @@ MultiIndexSet addExclusiveChildren(const MultiIndexSet &tensors, const MultiInde
                     if (limited){
                         if ((*ilimit == -1) || (k <= *ilimit))
                             tens.appendStrip(kid);
-                        ilimit++;
                     }else{
                         tens.appendStrip(kid);
                     }
                 }
             }
             k--;
+            if (limited) ilimit++; // the limit must follow the dimension even when the kid is skipped
         }
     }
 
